@@ -1,3 +1,67 @@
-(* C10/Props.v -- pinned property theorems (placeholder while the proofs are being built). *)
+(* C10/Props.v -- pinned property theorems; nothing but statements closed by `exact`.
+   Reading guide.  [ser]/[deser]/[crc] are the external payload serializer (bitcode) and CRC-32
+   (crc32fast): the theorems hold for ANY functions satisfying the three visible premises.
+   [good d]: the durable node's log file is a clean sequence of records whose replay gives exactly
+   the node's term, vote and log (true of a fresh node, kept by every step, re-established by every
+   restart).  [drun d ss]: the node after the protocol steps ss.  A crash leaves the first k bytes
+   of the file (k >= the length at open: bytes already on disk at open time are durable);
+   step number a is "acknowledged" when all its bytes are inside k. *)
 From NV.Common Require Import Base WalFormat.
+From NV.C10 Require Import Model Proofs Inst.
+From NV.gen Require Import Gen_C10.
 Open Scope N_scope.
+
+(* Clauses 1-3 of the property, for every sequence of well-formed protocol steps and EVERY byte
+   offset of the log:  the node restarts;  its term is at least the term of every acknowledged
+   step;  if it is still in that term it has the vote it had cast;  every entry of its log is
+   back at its index, except above the first position that the step in progress at the crash
+   was itself overwriting. *)
+Theorem C10_restart_never_forgets :
+  forall (ser : rentry -> list byte) (deser : list byte -> option rentry) (crc : list byte -> N),
+  (forall e, deser (ser e) = Some e) -> (forall d, crc d < 4294967296) -> (forall e, wf ser e) ->
+  forall d ss k, good ser crc d -> Forall wf_step ss -> (length (file d) <= k)%nat ->
+  exists d2, restart deser crc gen_raft_tail_repair (firstn k (file (drun ser crc d ss))) = Some d2
+   /\ good ser crc d2 /\
+   forall a, (a <= length ss)%nat -> (length (file (drun ser crc d (firstn a ss))) <= k)%nat ->
+     let na := nd (drun ser crc d (firstn a ss)) in
+     term na <= term (nd d2) /\
+     (term (nd d2) = term na -> forall v, voted na = Some v -> voted (nd d2) = Some v) /\
+     ((a = length ss \/ (k < length (file (drun ser crc d (firstn (S a) ss))))%nat) ->
+        let nb := nd (drun ser crc d (firstn (S a) ss)) in
+        firstn (cp (log na) (log nb)) (log (nd d2)) = firstn (cp (log na) (log nb)) (log na)).
+Proof. exact restart_any_byte_gen. Qed.
+
+(* "keeps holding after further restarts": any number of crash / restart / more steps rounds,
+   each crash at any byte of what the round appended; every restart succeeds and ends in a good
+   state again, so C10_restart_never_forgets applies to every round. *)
+Theorem C10_any_number_of_restarts :
+  forall (ser : rentry -> list byte) (deser : list byte -> option rentry) (crc : list byte -> N),
+  (forall e, deser (ser e) = Some e) -> (forall d, crc d < 4294967296) -> (forall e, wf ser e) ->
+  forall gens d, good ser crc d -> Forall (fun g => Forall wf_step (fst g)) gens ->
+  exists d', run_gens ser deser crc d gens = Some d' /\ good ser crc d'.
+Proof. exact generations_good. Qed.
+
+(* "Consequently a node never grants two different candidates its vote in one term":
+   after a restart in the term of an acknowledged vote for v, a RequestVote from c <> v is refused. *)
+Theorem C10_no_second_grant :
+  forall (ser : rentry -> list byte) (deser : list byte -> option rentry) (crc : list byte -> N),
+  (forall e, deser (ser e) = Some e) -> (forall d, crc d < 4294967296) -> (forall e, wf ser e) ->
+  forall d ss k a v c lli llt d2,
+  good ser crc d -> Forall wf_step ss -> (length (file d) <= k)%nat ->
+  (a <= length ss)%nat -> (length (file (drun ser crc d (firstn a ss))) <= k)%nat ->
+  voted (nd (drun ser crc d (firstn a ss))) = Some v -> c <> v ->
+  restart deser crc true (firstn k (file (drun ser crc d ss))) = Some d2 ->
+  term (nd d2) = term (nd (drun ser crc d (firstn a ss))) ->
+  snd (step (nd d2) (ReqVote (term (nd d2)) c lli llt)) = [term (nd d2); 0].
+Proof. exact no_second_grant. Qed.
+
+(* the hypotheses are satisfiable by non-trivial states: a fresh node is good, and an
+   AppendEntries carrying three consecutive entries after a vote is a well-formed step list *)
+Example C10_hypotheses_satisfiable :
+  (forall ser crc, good ser crc dn0) /\
+  Forall wf_step [ReqVote 3 1 0 0; Append 3 1 0 0 [(1, 3, 101); (2, 3, 102); (3, 3, 103)] 1; Elect; Propose 7].
+Proof. split; [exact good_dn0|repeat constructor]. Qed.
+
+Print Assumptions C10_restart_never_forgets.
+Print Assumptions C10_any_number_of_restarts.
+Print Assumptions C10_no_second_grant.
